@@ -230,6 +230,162 @@ theorem good_or {as : List Value} {rt : Ty} (h : ImplArgsOK nfc orF.spec as) (ht
   obtain ⟨r, hr⟩ := orU_bool x y
   rw [hx, hy, hr]; exact implGood_bool _
 
+
+/-! ### add, sub, mul, div, mod: the operation method under `recover` of `big.ErrNaN` -/
+
+/-- a `math/big` operation answers a number or panics with `big.ErrNaN` -/
+def OkOrNaN {α} (r : Res α) : Prop := (∃ x, r = .ok x) ∨ r = .panic "ErrNaN"
+
+theorem add_okOrNaN (a b : Num) : OkOrNaN (Num.add a b) := by
+  unfold OkOrNaN
+  cases a <;> cases b <;> simp only [Num.add] <;> (repeat' split) <;> simp
+theorem sub_okOrNaN (a b : Num) : OkOrNaN (Num.sub a b) := add_okOrNaN a _
+theorem mul_okOrNaN (a b : Num) : OkOrNaN (Num.mulCty a b) := by
+  unfold OkOrNaN
+  cases a <;> cases b <;> simp only [Num.mulCty] <;> (repeat' split) <;> simp
+theorem quo_okOrNaN (a b : Num) : OkOrNaN (Num.quo a b) := by
+  unfold OkOrNaN
+  cases a <;> cases b <;> simp only [Num.quo] <;> (repeat' split) <;> simp
+
+theorem addU_num (x y : Num) : addU (numVal x) (numVal y) = (Num.add x y).map numVal := by
+  simp [addU, typeCheck, typeCheckAux, numVal, Ty.isDyn, Ty.equals, Value.isUnk, asNum]
+  cases Num.add x y <;> rfl
+theorem subU_num (x y : Num) : subU (numVal x) (numVal y) = (Num.sub x y).map numVal := by
+  simp [subU, typeCheck, typeCheckAux, numVal, Ty.isDyn, Ty.equals, Value.isUnk, asNum]
+  cases Num.sub x y <;> rfl
+theorem mulU_num (x y : Num) : mulU (numVal x) (numVal y) = (Num.mulCty x y).map numVal := by
+  simp [mulU, typeCheck, typeCheckAux, numVal, Ty.isDyn, Ty.equals, Value.isUnk, asNum]
+  cases Num.mulCty x y <;> rfl
+theorem divU_num (x y : Num) : divU (numVal x) (numVal y) = (Num.quo x y).map numVal := by
+  simp [divU, typeCheck, typeCheckAux, numVal, Ty.isDyn, Ty.equals, Value.isUnk, asNum]
+  cases Num.quo x y <;> rfl
+
+/-- `recoverNaN` turns the one panic of the arithmetic into an error -/
+theorem implGood_recoverNaN {r : Res Num} (h : OkOrNaN r) : ImplGood .number (StdNum.recoverNaN (r.map numVal)) := by
+  rcases h with ⟨x, rfl⟩ | rfl
+  · exact implGood_num x
+  · exact implGood_err _ _
+
+theorem binMarks_unmarked (f : Value → Value → Res Value) (x y : Num) :
+    binMarks f (numVal x) (numVal y) = f (numVal x) (numVal y) := by
+  simp [binMarks, numVal, Value.isMarked, Payload.isMarked]
+
+theorem two_nums {as : List Value} {p q : Param} (h : ImplArgsOK nfc (spec2 p q) as)
+    (hp : p = pNumD) (hq : q = pNumD) : ∃ x y, as = [numVal x, numVal y] := by
+  subst hp hq
+  obtain ⟨a, b, rfl, ha, hb⟩ := args_inv2 h
+  obtain ⟨x, rfl⟩ := num_arg' ha rfl rfl rfl rfl
+  obtain ⟨y, rfl⟩ := num_arg' hb rfl rfl rfl rfl
+  exact ⟨x, y, rfl⟩
+
+theorem good_add {as : List Value} {rt : Ty} (h : ImplArgsOK nfc addF.spec as) (ht : staticTf .number as = .ok rt) :
+    ImplGood rt (implOf StdNum.addImpl as rt) := by
+  cases ht
+  obtain ⟨x, y, rfl⟩ := two_nums h rfl rfl
+  simp only [implOf, StdNum.addImpl, StdNum.arg, List.getElem?_cons_zero, List.getElem?_cons_succ, Res.bind_ok,
+    Value.add, binMarks_unmarked, addU_num]
+  exact implGood_recoverNaN (add_okOrNaN x y)
+
+theorem good_sub {as : List Value} {rt : Ty} (h : ImplArgsOK nfc subF.spec as) (ht : staticTf .number as = .ok rt) :
+    ImplGood rt (implOf StdNum.subtractImpl as rt) := by
+  cases ht
+  obtain ⟨x, y, rfl⟩ := two_nums h rfl rfl
+  simp only [implOf, StdNum.subtractImpl, StdNum.arg, List.getElem?_cons_zero, List.getElem?_cons_succ, Res.bind_ok,
+    Value.sub, binMarks_unmarked, subU_num]
+  exact implGood_recoverNaN (sub_okOrNaN x y)
+
+theorem good_mul {as : List Value} {rt : Ty} (h : ImplArgsOK nfc mulF.spec as) (ht : staticTf .number as = .ok rt) :
+    ImplGood rt (implOf StdNum.multiplyImpl as rt) := by
+  cases ht
+  obtain ⟨x, y, rfl⟩ := two_nums h rfl rfl
+  simp only [implOf, StdNum.multiplyImpl, StdNum.arg, List.getElem?_cons_zero, List.getElem?_cons_succ, Res.bind_ok,
+    Value.mul, binMarks_unmarked, mulU_num]
+  exact implGood_recoverNaN (mul_okOrNaN x y)
+
+theorem good_div {as : List Value} {rt : Ty} (h : ImplArgsOK nfc divF.spec as) (ht : staticTf .number as = .ok rt) :
+    ImplGood rt (implOf StdNum.divideImpl as rt) := by
+  cases ht
+  obtain ⟨x, y, rfl⟩ := two_nums h rfl rfl
+  simp only [implOf, StdNum.divideImpl, StdNum.arg, List.getElem?_cons_zero, List.getElem?_cons_succ, Res.bind_ok,
+    Value.div, binMarks_unmarked, divU_num]
+  exact implGood_recoverNaN (quo_okOrNaN x y)
+
+/-! `mod`: the remainder is computed by `Quo`, `Int`, `Mul`, `Sub` on FINITE numbers with a non-zero
+divisor — `rat.Int(nil)` is never asked of an infinity (that would be the nil-pointer panic) and none
+of the steps can raise `big.ErrNaN`; with an infinite operand the one `Mul` can, which `recover` catches. -/
+
+theorem add_fin {a b : Num} (ha : a.isInf = false) (hb : b.isInf = false) :
+    ∃ r, Num.add a b = .ok r ∧ r.isInf = false := by
+  cases a <;> cases b <;> simp [Num.isInf] at ha hb
+  simp only [Num.add]
+  repeat' split
+  all_goals exact ⟨_, rfl, by rfl⟩
+
+theorem addP_fin {a b : Num} (p : Nat) (ha : a.isInf = false) (hb : b.isInf = false) :
+    ∃ r, Num.addP a b p = .ok r ∧ r.isInf = false := by
+  obtain ⟨r, hr, hf⟩ := add_fin ha hb
+  cases r <;> simp [Num.isInf] at hf
+  simp only [Num.addP, hr]
+  exact ⟨_, rfl, by rfl⟩
+
+theorem mulP_fin {a b : Num} (p : Nat) (ha : a.isInf = false) (hb : b.isInf = false) :
+    ∃ r, Num.mulP a b p = .ok r ∧ r.isInf = false := by
+  cases a <;> cases b <;> simp [Num.isInf] at ha hb
+  exact ⟨_, rfl, by rfl⟩
+
+theorem quo_fin {a b : Num} (ha : a.isInf = false) (hb : b.isInf = false) (hz : b.isZero = false) :
+    ∃ r, Num.quo a b = .ok r ∧ r.isInf = false := by
+  cases a <;> cases b <;> simp [Num.isInf] at ha hb
+  rename_i na ma ea pa nb mb eb pb
+  have hmb : mb ≠ 0 := by intro h0; subst h0; simp [Num.isZero] at hz
+  simp only [Num.quo, hmb, if_false]
+  split
+  · exact ⟨_, rfl, by rfl⟩
+  · exact ⟨_, rfl, by rfl⟩
+
+theorem neg_fin {a : Num} (ha : a.isInf = false) : a.neg.isInf = false := by
+  cases a <;> simp_all [Num.isInf, Num.neg]
+
+theorem modU_num (x y : Num) : OkOrNaN (modU (numVal x) (numVal y)) ∧
+    ∀ v, modU (numVal x) (numVal y) = .ok v → ∃ r, v = numVal r := by
+  simp only [modU, typeCheck, typeCheckAux, numVal, Ty.isDyn, Ty.equals, Value.isUnk, asNum, Res.bind_ok, Res.pure_eq,
+    Bool.false_eq_true, if_false, Bool.not_true, Bool.or_false]
+  by_cases hinf : (x.isInf || y.isInf) = true
+  · simp only [hinf, if_true]
+    rcases mul_okOrNaN x y with ⟨r, hr⟩ | hr <;> rw [hr]
+    · exact ⟨.inl ⟨_, rfl⟩, fun v hv => by cases hv; exact ⟨r, rfl⟩⟩
+    · exact ⟨.inr rfl, fun v hv => by cases hv⟩
+  · simp only [hinf, Bool.false_eq_true, if_false]
+    simp only [Bool.or_eq_true, not_or, Bool.not_eq_true] at hinf
+    by_cases hz : y.isZero = true
+    · simp only [hz, if_true]
+      exact ⟨.inl ⟨_, rfl⟩, fun v hv => by cases hv; exact ⟨x, rfl⟩⟩
+    · simp only [hz, Bool.false_eq_true, if_false]
+      obtain ⟨rat, hq, hqf⟩ := quo_fin hinf.1 hinf.2 (by simpa using hz)
+      simp only [hq, Res.bind_ok]
+      cases rat with
+      | inf n => simp [Num.isInf] at hqf
+      | fin qn qm qe qp =>
+        simp only [Num.truncInt]
+        obtain ⟨w, hw, hwf⟩ := mulP_fin (a := y) (b := Num.setIntP (if qn = true then -(if qe ≥ 0 then (qm : Int) * 2 ^ qe.toNat else (qm : Int) / 2 ^ (-qe).toNat) else (if qe ≥ 0 then (qm : Int) * 2 ^ qe.toNat else (qm : Int) / 2 ^ (-qe).toNat)) x.prec)
+          (Num.setIntP (if qn = true then -(if qe ≥ 0 then (qm : Int) * 2 ^ qe.toNat else (qm : Int) / 2 ^ (-qe).toNat) else (if qe ≥ 0 then (qm : Int) * 2 ^ qe.toNat else (qm : Int) / 2 ^ (-qe).toNat)) x.prec).prec hinf.2 rfl
+        simp only [hw, Res.bind_ok]
+        obtain ⟨z, hzz, _⟩ := addP_fin w.prec hinf.1 (neg_fin hwf)
+        simp only [hzz, Res.bind_ok]
+        exact ⟨.inl ⟨_, rfl⟩, fun v hv => by cases hv; exact ⟨z, rfl⟩⟩
+
+theorem good_mod {as : List Value} {rt : Ty} (h : ImplArgsOK nfc modF.spec as) (ht : staticTf .number as = .ok rt) :
+    ImplGood rt (implOf StdNum.moduloImpl as rt) := by
+  cases ht
+  obtain ⟨x, y, rfl⟩ := two_nums h rfl rfl
+  simp only [implOf, StdNum.moduloImpl, StdNum.arg, List.getElem?_cons_zero, List.getElem?_cons_succ, Res.bind_ok,
+    Value.mod, binMarks_unmarked]
+  obtain ⟨h1, h2⟩ := modU_num x y
+  rcases h1 with ⟨v, hv⟩ | hp
+  · obtain ⟨r, rfl⟩ := h2 v hv
+    rw [hv]; exact implGood_num r
+  · rw [hp]; exact implGood_err _ _
+
 /-! ### `Call` is total for every function of `D11b.table` -/
 
 /-- what is proved of one function: `Call` on well-formed arguments of any kind returns a value or
@@ -247,7 +403,7 @@ theorem callTotal_mk {spec : Spec} {T : Ty} {f : List Value → Res Value} (hr :
 theorem callTotal_table : ∀ e ∈ table, CallTotal nfc e.2.2.2 := by
   intro e he
   simp only [table, List.mem_cons, List.not_mem_nil, or_false] at he
-  rcases he with rfl | rfl | rfl | rfl | rfl | rfl | rfl | rfl | rfl | rfl | rfl
+  rcases he with rfl | rfl | rfl | rfl | rfl | rfl | rfl | rfl | rfl | rfl | rfl | rfl | rfl | rfl | rfl | rfl
   · exact callTotal_mk rfl fun _ _ => good_signum
   · exact callTotal_mk rfl fun _ _ => good_ceil
   · exact callTotal_mk rfl fun _ _ => good_floor
@@ -259,6 +415,11 @@ theorem callTotal_table : ∀ e ∈ table, CallTotal nfc e.2.2.2 := by
   · exact callTotal_mk rfl fun _ _ => good_not
   · exact callTotal_mk rfl fun _ _ => good_and
   · exact callTotal_mk rfl fun _ _ => good_or
+  · exact callTotal_mk rfl fun _ _ => good_add
+  · exact callTotal_mk rfl fun _ _ => good_sub
+  · exact callTotal_mk rfl fun _ _ => good_mul
+  · exact callTotal_mk rfl fun _ _ => good_div
+  · exact callTotal_mk rfl fun _ _ => good_mod
 
 
 /-- the `Type` callback of every entry of `D11b.table` is the constant one of the static type the
@@ -266,7 +427,7 @@ SOURCE declares for that function (the string of the regenerated syntax table, r
 theorem table_static : ∀ e ∈ table, ∃ T, Std.staticTy? e.2.2.1 = some T ∧ ∀ E as, e.2.2.2.tf E as = .ok T := by
   intro e he
   simp only [table, List.mem_cons, List.not_mem_nil, or_false] at he
-  rcases he with rfl | rfl | rfl | rfl | rfl | rfl | rfl | rfl | rfl | rfl | rfl <;>
+  rcases he with rfl | rfl | rfl | rfl | rfl | rfl | rfl | rfl | rfl | rfl | rfl | rfl | rfl | rfl | rfl | rfl <;>
     exact ⟨_, rfl, fun _ _ => rfl⟩
 
 end D11b
